@@ -175,6 +175,7 @@ struct Cnt {
 
 fn check_source(src: &str, site: &str, input: &str, fns: &[(&str, Vec<usize>, usize)], must_accept: bool, cnt: &Cnt, coll: &Collector) {
     cnt.programs.fetch_add(1, Ordering::Relaxed);
+    set_context(src);
     let case = json!({"kind": "program", "source": src});
     let checked = match catch(|| garble_lang::check(src)) {
         Err(p) => {
